@@ -434,6 +434,12 @@ class Connection(ExportImport):
                 del obj._p_oid
                 if obj._p_changed:
                     obj._p_changed = False
+            elif oid in self._creating:
+                # A new object that commit() already passed to the
+                # storage.  abort() disowns it in _invalidate_creating();
+                # there is no committed state to re-read, so its state
+                # must not be dropped.
+                continue
             else:
                 # Note: If we invalidate a non-ghostifiable object
                 # (i.e. a persistent class), the object will
